@@ -292,6 +292,12 @@ class H5Group:
                 # h5py removes the previous value before it finds out that
                 # the new text cannot be stored
                 util.check_text_storable(value)
+            elif isinstance(value, (list, tuple, np.ndarray)):
+                # a vector of texts (the units of a data frame): the same
+                # holds for each of them
+                for val in np.ravel(np.asarray(value, dtype=object)):
+                    if isinstance(val, str):
+                        util.check_text_storable(val)
             self.group.attrs[name] = value
 
     def get_attr(self, name):
